@@ -530,9 +530,10 @@ Definition spec_is_failure (k : wkind) (d : derr) : bool :=
   | _ =>
     match k with
     | WGrpcClient =>
-      match d with DStatus c => existsb (Z.eqb c) [4; 8; 12; 13; 14; 15] | _ => false end
-    | WGrpcServerUnary | WGrpcServerStream =>
+      match d with DStatus c => existsb (Z.eqb c) [4; 8; 12; 13; 14; 15] | DStallTimeout => true | _ => false end
+    | WGrpcServerUnary | WGrpcServerStream | WGrpcServerChain =>
       match d with
+      | DStallTimeout => true      (* a timed-out call is a DeadlineExceeded *)
       | DStatus c => existsb (Z.eqb c) [4; 8; 12; 13; 14; 15]
       | DCtxDeadline | DBreakerUnavailable | DWrappedDeadline | DWrappedBreakerUnavailable => true
       | _ => false
@@ -577,22 +578,39 @@ Definition wcall_prop (c : wcall) (o : wobs) : bool :=
       end
   end.
 
-(* REST: T1 and the accounting on a reference window fed with the observed behaviour *)
-Fixpoint rest_prop_from (g : geom) (l : rlog) (clock : Z) (rs : list hreq) (os : list robs) : bool :=
+(* REST: the whole clause on a reference window fed with what the breaker MUST have recorded for
+   each admitted request - success iff the status BreakerHandler has to judge (what reached
+   its writer last; a timed-out request is a 503, also after a flush) is below 500.  The
+   breaker of the handler cannot be read out, so a wrong record shows in the decisions that
+   follow: T1 (rejected only when over the limit), T3 (no rejection later than 1 s after a
+   sure throttled admission) and T4 (under recorded total failure a draw surely below
+   (total-5)/(total+1) must be rejected). *)
+Fixpoint rest_prop_from (cfg : config) (g : geom) (p : pstate) (rs : list hreq) (os : list robs) : bool :=
   match rs, os with
   | [], [] => true
   | r :: rs', o :: os' =>
-    let now := clock + hq_gap r in
+    let now := p_clock p + hq_gap r in
+    let h := ref_history g (p_log p) now in
     if ro_invoked o =? 0 then
       (* rejected: 503, never reaches the handler, and the window was over the limit *)
-      rseen_eqb (ro_seen o) (RSCode 503) && over_limit (ref_history g l now) &&
-      rest_prop_from g (ref_record g l now v_drop) now rs' os'
+      rseen_eqb (ro_seen o) (RSCode 503) && over_limit h &&
+      (p_unsure p || negb ((0 <? p_lsure p) && (prop_force <? now - p_lsure p))) &&
+      rest_prop_from cfg g (mkP (ref_record g (p_log p) now v_drop) now (p_lsure p) (p_unsure p)) rs' os'
     else
+      let t := now + hq_dur r in
+      let x := if h_code (hq_out r) <? 500 then v_success else v_fail in
+      let sure_pos := negb (Qle_bool (drop_ratio cfg h) 0) && negb (tie_sign cfg h) in
+      let bound := (inject_Z (w_total h - prop_protection) / inject_Z (w_total h + 1))%Q in
       (ro_invoked o =? 1) &&
-      rseen_eqb (ro_seen o) (match hq_out r with HCode c => RSCode c | HPanic _ => RSPanic (h_code (hq_out r)) end) &&
-      rest_prop_from g (ref_record g l (now + hq_dur r)
-                          (if h_code (hq_out r) <? 500 then v_success else v_fail))
-                     (now + hq_dur r) rs' os'
+      rseen_eqb (ro_seen o) (match hq_out r with
+                             | HCode c => RSCode c
+                             | HPanic _ => RSPanic (h_code (hq_out r))
+                             | HScript ch ops e => if snd (script_result ch ops e) then RSPanic (-2) else RSCode (-2)
+                             end) &&
+      negb (negb (p_unsure p) && (w_accepts h =? 0) && negb (force_due cfg (p_lsure p) now) &&
+            Qltb (hq_u r) bound && negb (rel_close (hq_u r) bound)) &&
+      rest_prop_from cfg g (mkP (ref_record g (p_log p) t x) t (if sure_pos then now else p_lsure p)
+                                (p_unsure p || tie_sign cfg h)) rs' os'
   | _, _ => false
   end.
 
@@ -679,8 +697,8 @@ Definition prop_ok (c : case) : bool :=
   match cnamed c with _ :: _ => multi_prop_ok c | [] =>
   match cwcalls c, crest c, csched c with
   | _ :: _, _, _ => all2 wcall_prop (cwcalls c) (cwobs c)
-  | [], _ :: _, _ => rest_prop_from (mkGeom (cbase c) (bucket_duration cfg_gen) gen_buckets) [] (cbase c)
-                                    (crest c) (crobs c)
+  | [], _ :: _, _ => rest_prop_from cfg_gen (mkGeom (cbase c) (bucket_duration cfg_gen) gen_buckets)
+                                    (mkP [] (cbase c) 0 false) (crest c) (crobs c)
   | [], [], [] => seq_prop_ok c
   | [], [], _ => conc_prop_ok c
   end end.
